@@ -979,6 +979,12 @@ bool TypeAuditor::ViFilter(Cursor iter) {
   }
   const auto& argument = std::get<Typification>(maybeArgument.value());
   if (argument.IsAnyType() || (argument.IsCollection() && argument.B().Base().IsAnyType())) {
+    // Note: parameters are evaluated even for empty argument, so they should be checked too
+    for (Index child = 0; child + 1 < iter.ChildrenCount(); ++child) {
+      if (!ChildType(iter, child).has_value()) {
+        return false;
+      }
+    }
     return SetCurrent(Typification::EmptySet());
   }
   if (!argument.IsCollection() || !argument.B().Base().IsTuple()) {
